@@ -1,7 +1,7 @@
 """Driver configuration for C10 (staging result store)."""
 
 CFG = dict(
-    tests=["TestC10"],
+    tests=["TestC10", "TestC10GCRace"],
     n_quick=300, n_thorough=1200, shards_thorough=5,
     rule="corpus + 23 sequential boundary families (TTL exact / +-1 ns, replace higher / drop lower / drop equal, "
          "expired-but-uncollected entry met by same / lower / higher block (finding 12), dropped result whose blocker expires, "
